@@ -767,6 +767,10 @@ pub struct SignInfo {
     pub hint_counts: Vec<usize>,
     /// some coefficient of w hit the Decompose corner r+ - r0 = q-1
     pub w_corner: bool,
+    /// rejected attempts that sat EXACTLY on a rejection boundary (the first value that must be rejected)
+    pub boundary_rejections: Vec<&'static str>,
+    /// challenge polynomial of the first attempt that passed the z / r0 tests (it does not depend on t0)
+    pub first_c_after_zr0: Option<Poly>,
     pub mu: Vec<u8>,
 }
 pub fn mu_of(tr: &[u8], m_prime: &[u8]) -> Vec<u8> { h(&[tr, m_prime], 64) }
@@ -812,11 +816,20 @@ pub fn sign_internal_ctx(ctx: &SkCtx, m_prime: &[u8], rnd: &[u8; 32], opts: &Sig
         kappa += p.l;
         if !opts.skip_z_check && z_norm >= p.gamma1 - p.beta {
             info.rejects.push(Reject::ZNorm);
+            if z_norm == p.gamma1 - p.beta && r0_norm < p.gamma2 - p.beta {
+                info.boundary_rejections.push("z_norm==gamma1-beta");
+            }
             continue;
         }
         if !opts.skip_r0_check && r0_norm >= p.gamma2 - p.beta {
             info.rejects.push(Reject::R0Norm);
+            if r0_norm == p.gamma2 - p.beta {
+                info.boundary_rejections.push("r0_norm==gamma2-beta");
+            }
             continue;
+        }
+        if info.first_c_after_zr0.is_none() {
+            info.first_c_after_zr0 = Some(c);
         }
         let ct0: Vec<Poly> = ctx.t0_hat.iter().map(|s| inv_ntt(&multiply_ntt(&c_hat, s))).collect();
         let mut hint = vec![POLY0; p.k];
@@ -835,10 +848,16 @@ pub fn sign_internal_ctx(ctx: &SkCtx, m_prime: &[u8], rnd: &[u8; 32], opts: &Sig
         let weight: usize = counts.iter().sum();
         if !opts.skip_ct0_check && ct0_norm >= p.gamma2 {
             info.rejects.push(Reject::Ct0Norm);
+            if ct0_norm == p.gamma2 && weight <= p.omega {
+                info.boundary_rejections.push("ct0_norm==gamma2");
+            }
             continue;
         }
         if !opts.skip_weight_check && weight > p.omega {
             info.rejects.push(Reject::HintWeight);
+            if weight == p.omega + 1 {
+                info.boundary_rejections.push("hint_weight==omega+1");
+            }
             continue;
         }
         info.kappa_final = kappa;
